@@ -920,7 +920,7 @@ def shards(tier, seed):
     out += [{"part": "select_rev", "tail": L, "first": st, "between": "A" if tier == "quick" else "AC"}
             for L in ((3, 4) if tier == "quick" else (3, 4, 5)) for st in ("TAA", "TAG", "TGA")]
     if tier == "quick":
-        out.append({"part": "select_rev", "tail": 5, "first": "TGA", "between": "A"})  # reaches the frames -2 and -3 as well
+        out.append({"part": "select_rev", "tail": 5, "first": "TGA", "between": "C"})  # reaches the frames -2 and -3 as well
     # gc level: all distinct tables inside the shard
     for n in range(0, b["gc_len"] + 1):
         of = _nchunks(n, 0.95 * len(TABLE_REPS), target_s=8.0 if tier == "quick" else 40.0)
